@@ -126,20 +126,20 @@ End FormulaProofs.
 (* ---- the kernel-checked bounded range ---- *)
 Lemma omul_table_checked : omul_table_ok = true.
 Proof. vm_compute. reflexivity. Qed.
-Lemma mol_formula_checked_upto_8 : forallb mol_formula_check (seq 0 9) = true.
+Lemma mol_formula_checked_upto_10 : forallb mol_formula_check (seq 0 11) = true.
 Proof. vm_compute. reflexivity. Qed.
-Lemma spin_formula_checked_upto_5 : forallb spin_formula_check (seq 0 6) = true.
+Lemma spin_formula_checked_upto_6 : forallb spin_formula_check (seq 0 7) = true.
 Proof. vm_compute. reflexivity. Qed.
 
-Theorem mol_formula_bounded (R : cring) (half : R) t v L : (L <= 8)%nat ->
+Theorem mol_formula_bounded (R : cring) (half : R) t v L : (L <= 10)%nat ->
   forall w, chains_den L 0 (mol_chains half L t v) w = mol_formula half L t v w.
 Proof.
   intros HL. apply mol_formula_of_check.
-  pose proof mol_formula_checked_upto_8 as H. rewrite forallb_forall in H. apply H. apply in_seq. lia.
+  pose proof mol_formula_checked_upto_10 as H. rewrite forallb_forall in H. apply H. apply in_seq. lia.
 Qed.
-Theorem spin_formula_bounded (R : cring) (half : R) t v L : (L <= 5)%nat ->
+Theorem spin_formula_bounded (R : cring) (half : R) t v L : (L <= 6)%nat ->
   exists cs, spin_chains half L t v = Ok cs /\ forall w, chains_den L 0 cs w = spin_formula half L t v w.
 Proof.
   intros HL. apply spin_formula_of_check.
-  pose proof spin_formula_checked_upto_5 as H. rewrite forallb_forall in H. apply H. apply in_seq. lia.
+  pose proof spin_formula_checked_upto_6 as H. rewrite forallb_forall in H. apply H. apply in_seq. lia.
 Qed.
